@@ -142,6 +142,25 @@ func (its *DatatypeManager) OnChangeDatatypeState(dt iface.Datatype, state model
 				return errors.DatatypeSubscribe.New(nil, err.Error())
 			}
 			its.ctx.L().Infof("subscribe datatype topic(%s)", topic)
+			if wired, ok := dt.(iface.WiredDatatype); ok && its.ctx.Client.SyncType == model.SyncType_REALTIME {
+				// What other clients pushed between the server's answer to the first sync and this subscription was
+				// announced to a topic nobody listened to yet: pull once more now that the subscription is in place.
+				// (This runs inside the first sync, which holds the semaphore: wait for it in a goroutine.)
+				go func() {
+					if err := its.sema.Acquire(its.ctx.Ctx(), 1); err != nil {
+						return
+					}
+					defer func() {
+						its.sema.Release(1)
+						for _, data := range its.dataMap { // deliveries that found the semaphore taken gave up
+							if data.NeedPush() {
+								its.DeliverTransaction(data)
+							}
+						}
+					}()
+					_ = its.sync(wired)
+				}()
+			}
 		}
 	}
 	return nil
